@@ -57,3 +57,11 @@ CHECKS["C16"] = c("abci", "TestC16", dict(checks=200, timeout=600), dict(checks=
                         "the next and a later block, and demands that none takes effect again. Exploration over the mutator's variant catalogue (17 kinds).",
              level_note="REDUP (in-block duplicate rejection) is active, as on main-net today; before that activation in-block duplicates execute twice by design and are out of the stated domain. "
                         "The wire mutator is hand-written and independent of gogoproto.")
+
+CHECKS["C43"] = c("abci", "TestC43", dict(checks=60, timeout=600), dict(checks=400, shards=14, timeout=3000),
+             technique="round-trip property-based testing: generated chain history -> ExportAppState -> InitChain of a fresh application from the export (in a subprocess) -> normalised state views compared",
+             design_ref="DESIGN.md §7 C43",
+             level_text="The real export and the real genesis import are exercised on generated non-trivial states (unstaking and jailed records, pools, changed params); the normalised views of "
+                        "exporter and importer must agree. Exploration; import cost bounds the case count.",
+             level_note="Pending claims appear only when the relay factory is used (C32 histories); here the claim list is usually empty. The importer runs with the default feature configuration "
+                        "of the simulator, as a new chain started from the exported file would.")
